@@ -477,6 +477,15 @@ def corruptions(rng, f, lines, owner):
             g = list(fs); g[3] = str(c["tend"] - 1); out.append(("hdr-size<end", rep(i, " ".join(g))))
         if c["qend"] > 0:
             g = list(fs); g[8] = str(c["qend"] - 1); out.append(("hdr-qsize<qend", rep(i, " ".join(g))))
+        # both declared ends short by the chain's last block: the records before it already land on both ends
+        lastb = c["blocks"][-1][0]
+        if lastb > 0 and len(c["blocks"]) > 1 and c["tend"] - lastb >= c["tstart"] and c["qend"] - lastb >= c["qstart"]:
+            g = list(fs); g[6], g[11] = str(c["tend"] - lastb), str(c["qend"] - lastb)
+            out.append(("hdr-both-ends-minus-last-block", rep(i, " ".join(g))))
+        for kk in (1, 2):
+            if c["tend"] - kk >= c["tstart"] and c["qend"] - kk >= c["qstart"]:
+                g = list(fs); g[6], g[11] = str(c["tend"] - kk), str(c["qend"] - kk)
+                out.append(("hdr-both-ends-%d" % -kk, rep(i, " ".join(g))))
         out.append(("hdr-trailing-space", rep(i, lines[i] + " ")))
         out.append(("hdr-trailing-tab", rep(i, lines[i] + "\t")))
         out.append(("hdr-leading-space", rep(i, " " + lines[i])))
